@@ -87,6 +87,8 @@ def run(ctx):
                 # reset() by the caller (a housekeeping reset, an ensemble resetting all of its members) once the statistics are known
                 for _ in range(rng.randint(1, 3)):
                     script.insert(rng.randrange(p["burn_in"] + 2, len(script)), ("reset",))
+                if i % 4 == 0 and p["burn_in"] >= 3:
+                    script.insert(rng.randrange(1, p["burn_in"]), ("reset",))        # ... and once inside the very first burn-in
             for _ in range(rng.randint(0, 3)):
                 script.insert(rng.randrange(1, len(script)), ("bad", rng.choice([np.array([[1.0, 2.0]]), [[1.0], [2.0]], np.zeros((2, 1))])))
             if i % 3 == 0:      # the very first call is refused (nothing is established yet, so it is the detector's own one-variable guard that refuses)
